@@ -83,7 +83,7 @@ func (P *Program) findIntrinsic(fn *ssa.Function) intrinsicFn {
 		orig := intrinsics[name]
 		return func(fr *frame, f *ssa.Function, args []value) value {
 			var stub *ssa.Function
-			if fr != nil {
+			if fr != nil && fr.fn != nil {
 				cf := fr.fn
 				for cf.Parent() != nil {
 					cf = cf.Parent()
@@ -239,7 +239,7 @@ func init() {
 			if len(fr.in.sch.log) < 2000 {
 				fr.in.sch.log = append(fr.in.sch.log, "+"+tag)
 			}
-			fr.in.yieldPoint()
+			fr.in.schedPoint("vSched")
 			if len(fr.in.sch.log) < 2000 {
 				fr.in.sch.log = append(fr.in.sch.log, "-"+tag)
 			}
